@@ -35,7 +35,11 @@ def spec_oracle(cfg, r):
                 out.append(("energy", f"transition {k}: proposed misfit is not the target's misfit of the proposal"))
         else:
             cm = r.target.misfit_value(numpy.array(s["cur_before"]).reshape(-1, 1))
-            e_cur = cm + r.mass.kinetic_value(numpy.array(s["mom"][0]).reshape(-1, 1))
+            # "the respective momentum" of the current state is the one drawn for this transition, as the mass matrix handed it
+            # out (a copy taken at that moment: the sampler's own attribute may have been written to since)
+            drawn = [e[2] for e in r.mass.log if e[0] == "generate_momentum"]
+            p_cur = drawn[k] if k < len(drawn) else s["mom"][0]
+            e_cur = cm + r.mass.kinetic_value(numpy.array(p_cur).reshape(-1, 1))
             e_prop = (r.target.misfit_value(numpy.array(s["proposed"]).reshape(-1, 1))
                       + r.mass.kinetic_value(numpy.array(s["mom"][1]).reshape(-1, 1)))
         with numpy.errstate(all="ignore"):
